@@ -66,6 +66,24 @@ CallForward(s, c, t, v, reverts) ==
         /\ Grow(Rec(IF reverts THEN "CallRevert" ELSE "CallForward", s, t, v, ok))
   /\ UNCHANGED <<locked, escrow, contracts>>
 
+(* contract call carrying value v to contract c, which then moves an amount IT names (not the
+   call's value) to t - by CALL, by CREATE or by CALLCODE: x = 0 everything it holds, x = 1 one unit
+   more than it holds, x = 2 an astronomically large amount.  Only x = 0 moves anything (the EVM's
+   CanTransfer refuses the others and the inner call just fails); way selects the instruction
+   (0 CALL, 1 CREATE: the value goes to a fresh child, kept in the total, 2 CALLCODE: nothing
+   moves at all). *)
+CallExplicit(s, c, t, v, x, way) ==
+  /\ Room /\ c \in contracts /\ s \notin contracts
+  /\ LET f == FeeOf(s)
+         b1 == Move(bal, s, Fee, f)
+         g  == IF b1[s] >= v + 1 THEN 1 ELSE 0
+         ok == f = 1 /\ g = 1
+         b2 == IF ok THEN Move(b1, s, c, v) ELSE b1
+         b3 == IF ok /\ x = 0 /\ way = 0 THEN Move(b2, c, t, b2[c]) ELSE b2    \* CREATE: child not an abstract account
+     IN /\ bal' = Move(b3, s, Fee, IF f = 1 THEN g ELSE 0)
+        /\ Grow([op |-> "CallExplicit", a |-> s, b |-> c, v |-> v + 3 * (x + 3 * (way + 3 * (IF t = c THEN 0 ELSE 1))), ok |-> ok])
+  /\ UNCHANGED <<locked, escrow, contracts>>
+
 (* wrapped Ethereum transaction (type 188): nonce-checked before anything else; with a nonce
    that is not the sender's next one it is evicted with no effect at all (no fee), otherwise it
    behaves like a contract call that forwards its value *)
@@ -129,6 +147,7 @@ Next ==
   \/ \E s, c, t \in Accounts, v \in 0..MaxAmt, r \in BOOLEAN : CallForward(s, c, t, v, r)
   \/ \E s, c, t \in Accounts, v \in 0..MaxAmt, n \in BOOLEAN : EthCall(s, c, t, v, n)
   \/ \E s, c \in Accounts, v \in 0..MaxAmt : Deploy(s, c, v)
+  \/ \E s, c, t \in Accounts, v \in 0..MaxAmt, x \in 0..2, way \in 0..2 : CallExplicit(s, c, t, v, x, way)
   \/ \E s, c, t \in Accounts : SelfDestruct(s, c, t)
   \/ \E s \in Accounts, v \in 1..MaxAmt : Stake(s, v) \/ Refund(s, v)
   \/ \E t \in Accounts : Mature(t)
